@@ -374,6 +374,13 @@ def _prod(fs):
     return t
 
 
+def _emap(f, arr):
+    out = _np.empty(arr.shape, dtype=object)
+    for idx in _np.ndindex(arr.shape):
+        out[idx] = f(arr[idx])
+    return out.view(type(arr))
+
+
 class Q:
     """(re + i im) / prod(den)"""
     __slots__ = ('re', 'im', 'den', 'tag')
@@ -457,7 +464,7 @@ class Q:
     # ---- arithmetic
     def __add__(a, b):
         if isinstance(b, _np.ndarray):
-            return NotImplemented
+            return _emap(lambda x: a + x, b)
         b = Q.of(b)
         if not a.den and not b.den:
             return Q(zadd(a.re, b.re), zadd(a.im, b.im))
@@ -475,15 +482,17 @@ class Q:
 
     def __sub__(a, b):
         if isinstance(b, _np.ndarray):
-            return NotImplemented
+            return _emap(lambda x: a - x, b)
         return a + (-Q.of(b))
 
     def __rsub__(a, b):
+        if isinstance(b, _np.ndarray):
+            return _emap(lambda x: x - a, b)
         return Q.of(b) + (-a)
 
     def __mul__(a, b):
         if isinstance(b, _np.ndarray):
-            return NotImplemented
+            return _emap(lambda x: a * x, b)
         if isinstance(b, B):
             return b * a
         b = Q.of(b)
@@ -527,11 +536,14 @@ class Q:
 
     def __truediv__(a, b):
         if isinstance(b, _np.ndarray):
-            return NotImplemented
+            return _emap(lambda x: a / x, b)
         b = Q.of(b)
         return a * b.inv()
 
     def __rtruediv__(a, b):
+        if isinstance(b, _np.ndarray):
+            ia = a.inv()
+            return _emap(lambda x: x * ia, b)
         return Q.of(b) * a.inv()
 
     def __pow__(a, n):
